@@ -80,6 +80,19 @@ pub trait MatFam<L: Leaf>: 'static {
     /// -> (the smaller matrix, kept alive; its size k; its ids by (row, column), read through plain field access)
     fn rm_shrink(m: Self::RM, which: usize) -> (Box<dyn std::any::Any>, usize, Vec<u32>);
     fn cm_shrink(m: Self::CM, which: usize) -> (Box<dyn std::any::Any>, usize, Vec<u32>);
+
+    // arithmetic and zero / one padded conversions with an element type that is not Copy (operation `MArith`)
+    fn rm_add(a: Self::RM, b: Self::RM) -> Self::RM;
+    fn cm_add(a: Self::CM, b: Self::CM) -> Self::CM;
+    fn rm_neg(a: Self::RM) -> Self::RM;
+    fn cm_neg(a: Self::CM) -> Self::CM;
+    fn rm_default() -> Self::RM;
+    fn cm_default() -> Self::CM;
+    /// sizes of the two other matrix types, in the order `*_via` takes them
+    const VIA: [usize; 2];
+    /// through another matrix size and back: `Self::from(Other::from(m))`
+    fn rm_via(m: Self::RM, which: usize) -> Self::RM;
+    fn cm_via(m: Self::CM, which: usize) -> Self::CM;
 }
 
 fn ids_rm<S: MatFam<L>, L: Leaf>(m: &S::RM) -> Vec<u32> {
@@ -99,6 +112,14 @@ fn ids_cm<S: MatFam<L>, L: Leaf>(m: &S::CM) -> Vec<u32> {
         }
     }
     v
+}
+
+fn plan_of_default(f: u32) -> Option<(Cb, u32)> {
+    if f > 0 {
+        Some((Cb::Default, f))
+    } else {
+        None
+    }
 }
 
 fn observe_any<M: std::fmt::Debug + std::fmt::Display + std::hash::Hash + PartialEq>(m: &M, kind: u32) {
@@ -131,7 +152,7 @@ macro_rules! line_field {
 }
 
 macro_rules! matfam {
-    ($F:ident, $n:expr, $nn:expr, $Mat:ident, $Vec:ident, $LK:ident, [$($f:ident)+], [$($i:tt)+], [$($nm:ident)+], [$($S:ident)*]) => {
+    ($F:ident, $n:expr, $nn:expr, $Mat:ident, $Vec:ident, $LK:ident, [$($f:ident)+], [$($i:tt)+], [$($nm:ident)+], [$($S:ident)*], [$V0:ident $v0:expr, $V1:ident $v1:expr]) => {
         pub struct $F;
         impl<L: Leaf> MatFam<L> for $F {
             const N: usize = $n;
@@ -261,13 +282,35 @@ macro_rules! matfam {
                 )*
                 panic!("harness: no such truncating conversion")
             }
+
+            fn rm_add(a: Self::RM, b: Self::RM) -> Self::RM { a + b }
+            fn cm_add(a: Self::CM, b: Self::CM) -> Self::CM { a + b }
+            fn rm_neg(a: Self::RM) -> Self::RM { -a }
+            fn cm_neg(a: Self::CM) -> Self::CM { -a }
+            fn rm_default() -> Self::RM { <Self::RM as Default>::default() }
+            fn cm_default() -> Self::CM { <Self::CM as Default>::default() }
+            const VIA: [usize; 2] = [$v0, $v1];
+            fn rm_via(m: Self::RM, which: usize) -> Self::RM {
+                if which == 0 {
+                    Self::RM::from(vek::mat::repr_c::row_major::$V0::<L>::from(m))
+                } else {
+                    Self::RM::from(vek::mat::repr_c::row_major::$V1::<L>::from(m))
+                }
+            }
+            fn cm_via(m: Self::CM, which: usize) -> Self::CM {
+                if which == 0 {
+                    Self::CM::from(vek::mat::repr_c::column_major::$V0::<L>::from(m))
+                } else {
+                    Self::CM::from(vek::mat::repr_c::column_major::$V1::<L>::from(m))
+                }
+            }
         }
     };
 }
 
-matfam!(Fam2, 2, 4, Mat2, Vec2, KVec2, [x y], [0 1], [m0 m1 m2 m3], []);
-matfam!(Fam3, 3, 9, Mat3, Vec3, KVec3, [x y z], [0 1 2], [m0 m1 m2 m3 m4 m5 m6 m7 m8], [Fam2]);
-matfam!(Fam4, 4, 16, Mat4, Vec4, KVec4, [x y z w], [0 1 2 3], [m0 m1 m2 m3 m4 m5 m6 m7 m8 m9 m10 m11 m12 m13 m14 m15], [Fam3 Fam2]);
+matfam!(Fam2, 2, 4, Mat2, Vec2, KVec2, [x y], [0 1], [m0 m1 m2 m3], [], [Mat3 3, Mat4 4]);
+matfam!(Fam3, 3, 9, Mat3, Vec3, KVec3, [x y z], [0 1 2], [m0 m1 m2 m3 m4 m5 m6 m7 m8], [Fam2], [Mat4 4, Mat2 2]);
+matfam!(Fam4, 4, 16, Mat4, Vec4, KVec4, [x y z w], [0 1 2 3], [m0 m1 m2 m3 m4 m5 m6 m7 m8 m9 m10 m11 m12 m13 m14 m15], [Fam3 Fam2], [Mat3 3, Mat2 2]);
 
 pub enum MForm<F: MatFam<L>, L: Leaf> {
     Flat(F::Flat),
@@ -861,6 +904,252 @@ impl<F: MatFam<L>, L: Leaf> MatExec<F, L> {
                     self.check("observe");
                 }
                 true
+            }
+            MArith => {
+                let mode = op.a % 5;
+                if mode != 2 && !matches!(self.form, MForm::RM(_) | MForm::CM(_)) {
+                    return false;
+                }
+                st.probes[P_ARITH] += 1;
+                let keep_last = (op.b >> 8) & 1 == 1;
+                match mode {
+                    0 | 1 => {
+                        // m + w / -m: every element is handed to the element's own operator exactly once, in place
+                        let what = if mode == 0 { "m + w" } else { "-m" };
+                        let form = std::mem::replace(&mut self.form, MForm::Gone);
+                        let col = matches!(form, MForm::CM(_));
+                        let mut other_ids: Vec<u32> = Vec::new();
+                        let other: Option<MForm<F, L>> = if mode == 0 {
+                            let toks: Vec<L> = (0..(n * n) as u32).map(|p| L::mk(700 + p, OWN_DOOMED)).collect();
+                            st.elements_created += (n * n) as u64;
+                            other_ids = toks.iter().map(|t| t.lid()).collect();
+                            Some(if col { MForm::CM(F::cm_new(F::flat_from_vec(toks))) } else { MForm::RM(F::rm_new(F::flat_from_vec(toks))) })
+                        } else {
+                            None
+                        };
+                        if op.f > 0 {
+                            st.fault_cfg[F_ARITH_PANIC] += 1;
+                        }
+                        let mine: Vec<u32> = self.grid.clone();
+                        if keep_last && mode == 0 {
+                            for id in &mine {
+                                tok::set_owner(*id, OWN_DOOMED);
+                            }
+                            for id in &other_ids {
+                                tok::set_owner(*id, OWN_MAIN);
+                            }
+                        }
+                        crate::arith::arm(op.f, keep_last);
+                        let (r, _) = guard(m(OWN_DOOMED) | if op.f > 0 { m(OWN_MAIN) } else { 0 }, 0, None, move || match (form, other) {
+                            (MForm::RM(mm), Some(MForm::RM(oo))) => MForm::<F, L>::RM(F::rm_add(mm, oo)),
+                            (MForm::CM(mm), Some(MForm::CM(oo))) => MForm::<F, L>::CM(F::cm_add(mm, oo)),
+                            (MForm::RM(mm), _) => MForm::<F, L>::RM(F::rm_neg(mm)),
+                            (MForm::CM(mm), _) => MForm::<F, L>::CM(F::cm_neg(mm)),
+                            _ => unreachable!(),
+                        });
+                        let (_calls, fired, log) = crate::arith::take();
+                        if fired {
+                            st.fault_fired[F_ARITH_PANIC] += 1;
+                            st.probes[P_ARITH_PANIC_FIRED] += 1;
+                        }
+                        if tok::has_violation() {
+                            if let Ok(f) = r {
+                                std::mem::forget(f);
+                            }
+                            self.grid.clear();
+                            return true;
+                        }
+                        // the calls: each pairs position p of m with position p of w (storage order is the
+                        // implementation's business), every position exactly once
+                        let mut seen: Vec<u32> = Vec::new();
+                        for (ci, c) in log.iter().enumerate() {
+                            let a = c.args[0];
+                            let pos = mine.iter().position(|x| *x == a);
+                            let okb = if mode == 0 { pos.map(|p| other_ids[p]) == Some(c.args[1]) } else { c.args[1] == crate::arith::NONE };
+                            if pos.is_none() || !okb || seen.contains(&a) {
+                                tok::raise(V5_ORDER, format!("{} on a {}x{} matrix: call {} of the element's operator was handed ids ({}, {}): not one position of m with the same position of w, or a position handed in twice", what, n, n, ci + 1, c.args[0] as i64, c.args[1] as i64));
+                                if let Ok(f) = r {
+                                    std::mem::forget(f);
+                                }
+                                self.grid.clear();
+                                return true;
+                            }
+                            seen.push(a);
+                        }
+                        match r {
+                            Ok(form) => {
+                                if log.len() != n * n {
+                                    tok::raise(V5_ORDER, format!("{}: the element's operator was called {} times for {} positions", what, log.len(), n * n));
+                                }
+                                self.form = form;
+                                if keep_last && mode == 0 {
+                                    self.grid = other_ids.clone();
+                                    self.list.clear();
+                                }
+                                let survivors = self.grid.clone();
+                                self.check(what);
+                                for id in mine.iter().chain(other_ids.iter()) {
+                                    if !survivors.contains(id) && !tok::gone(*id) && !tok::has_violation() {
+                                        tok::raise(V7_LEAK, format!("{}: operand element id {} was neither kept nor destroyed", what, id));
+                                    }
+                                }
+                            }
+                            Err(Thrown::Injected) if fired => {
+                                self.grid.clear();
+                                for id in mine.iter().chain(other_ids.iter()) {
+                                    if !tok::gone(*id) && !tok::has_violation() {
+                                        tok::raise(V7_LEAK, format!("{} unwound: id {} was not dropped", what, id));
+                                    }
+                                }
+                            }
+                            Err(Thrown::Injected) => {
+                                self.grid.clear();
+                            }
+                            Err(Thrown::Genuine(msg)) => {
+                                self.grid.clear();
+                                tok::raise(V10_UNEXPECTED_PANIC, format!("{} panicked: {}", what, msg))
+                            }
+                        }
+                        true
+                    }
+                    2 => {
+                        // M::default() (the identity): n*n zeros, the diagonal replaced by ones; dropped at once
+                        let col = op.b & 1 == 1;
+                        if op.f > 0 {
+                            st.fault_cfg[F_DEFAULT_PANIC] += 1;
+                        }
+                        let (r, fired) = guard(m(OWN_FRESH), 0, plan_of_default(op.f), move || if col { MForm::<F, L>::CM(F::cm_default()) } else { MForm::<F, L>::RM(F::rm_default()) });
+                        let fresh = tok::fresh_in_op();
+                        if fired {
+                            st.fault_fired[F_DEFAULT_PANIC] += 1;
+                            st.probes[P_DEFAULT_PANIC_FIRED] += 1;
+                        }
+                        match r {
+                            Ok(f) => {
+                                let ids: Vec<u32> = match &f {
+                                    MForm::RM(mm) => ids_rm::<F, L>(mm),
+                                    MForm::CM(mm) => ids_cm::<F, L>(mm),
+                                    _ => Vec::new(),
+                                };
+                                let mut sorted = ids.clone();
+                                sorted.sort();
+                                sorted.dedup();
+                                if sorted.len() != n * n || ids.iter().any(|id| !fresh.contains(id) || tok::state_of(*id) != Some(St::Live)) {
+                                    tok::raise(V5_ORDER, format!("Mat{}::default(): the result does not consist of {} distinct live elements created by zero()/one()", n, n * n));
+                                    std::mem::forget(f);
+                                    return true;
+                                }
+                                let _ = guard_nopanic("drop of the identity matrix", m(OWN_FRESH), 0, move || drop(f));
+                            }
+                            Err(Thrown::Injected) if fired => {}
+                            Err(Thrown::Injected) => {}
+                            Err(Thrown::Genuine(msg)) => tok::raise(V10_UNEXPECTED_PANIC, format!("Mat{}::default() panicked: {}", n, msg)),
+                        }
+                        for id in &fresh {
+                            if !tok::gone(*id) && !tok::has_violation() {
+                                tok::raise(V7_LEAK, format!("Mat{}::default(): element id {} created by zero()/one() was never destroyed", n, id));
+                            }
+                        }
+                        true
+                    }
+                    _ => {
+                        // through another matrix size and back: the top-left block common to both sizes keeps
+                        // its elements in place, everything else of m is destroyed once, padding is fresh
+                        let which = (mode - 3) as usize;
+                        let via = F::VIA[which];
+                        let kb = n.min(via);
+                        let what = format!("Mat{}::from(Mat{}::from(m))", n, via);
+                        let mine: Vec<u32> = self.grid.clone();
+                        for i in 0..n {
+                            for j in 0..n {
+                                if i >= kb || j >= kb {
+                                    tok::set_owner(mine[i * n + j], OWN_DOOMED);
+                                }
+                            }
+                        }
+                        if op.f > 0 {
+                            st.fault_cfg[F_DEFAULT_PANIC] += 1;
+                        }
+                        let form = std::mem::replace(&mut self.form, MForm::Gone);
+                        let (r, fired) = guard(m(OWN_DOOMED) | m(OWN_FRESH) | if op.f > 0 { m(OWN_MAIN) } else { 0 }, 0, plan_of_default(op.f), move || match form {
+                            MForm::RM(mm) => MForm::<F, L>::RM(F::rm_via(mm, which)),
+                            MForm::CM(mm) => MForm::<F, L>::CM(F::cm_via(mm, which)),
+                            _ => unreachable!(),
+                        });
+                        let fresh = tok::fresh_in_op();
+                        if fired {
+                            st.fault_fired[F_DEFAULT_PANIC] += 1;
+                            st.probes[P_DEFAULT_PANIC_FIRED] += 1;
+                        }
+                        if tok::has_violation() {
+                            if let Ok(f) = r {
+                                std::mem::forget(f);
+                            }
+                            self.grid.clear();
+                            return true;
+                        }
+                        match r {
+                            Ok(f) => {
+                                let ids: Vec<u32> = match &f {
+                                    MForm::RM(mm) => ids_rm::<F, L>(mm),
+                                    MForm::CM(mm) => ids_cm::<F, L>(mm),
+                                    _ => Vec::new(),
+                                };
+                                for i in 0..n {
+                                    for j in 0..n {
+                                        let id = ids[i * n + j];
+                                        let ok = if i < kb && j < kb { id == mine[i * n + j] } else { fresh.contains(&id) && tok::state_of(id) == Some(St::Live) && !mine.contains(&id) };
+                                        if !ok {
+                                            tok::raise(V5_ORDER, format!("{}: position ({}, {}) holds id {}; expected {}", what, i, j, id, if i < kb && j < kb { format!("id {} (kept in place)", mine[i * n + j]) } else { "a fresh zero()/one() element".to_string() }));
+                                            std::mem::forget(f);
+                                            self.grid.clear();
+                                            return true;
+                                        }
+                                    }
+                                }
+                                let mut sorted = ids.clone();
+                                sorted.sort();
+                                sorted.dedup();
+                                if sorted.len() != n * n {
+                                    tok::raise(V1_DOUBLE_DROP, format!("{}: the same element appears at two positions of the result", what));
+                                    std::mem::forget(f);
+                                    self.grid.clear();
+                                    return true;
+                                }
+                                for id in mine.iter().chain(fresh.iter()) {
+                                    if !ids.contains(id) && !tok::gone(*id) {
+                                        tok::raise(V7_LEAK, format!("{}: element id {} is not part of the result and was not destroyed", what, id));
+                                        std::mem::forget(f);
+                                        self.grid.clear();
+                                        return true;
+                                    }
+                                }
+                                for id in &ids {
+                                    tok::set_owner(*id, OWN_MAIN);
+                                }
+                                self.grid = ids;
+                                self.list.clear();
+                                self.form = f;
+                            }
+                            Err(Thrown::Injected) if fired => {
+                                self.grid.clear();
+                                for id in mine.iter().chain(fresh.iter()) {
+                                    if !tok::gone(*id) && !tok::has_violation() {
+                                        tok::raise(V7_LEAK, format!("{} unwound (zero()/one() panicked): id {} was not dropped", what, id));
+                                    }
+                                }
+                            }
+                            Err(Thrown::Injected) => {
+                                self.grid.clear();
+                            }
+                            Err(Thrown::Genuine(msg)) => {
+                                self.grid.clear();
+                                tok::raise(V10_UNEXPECTED_PANIC, format!("{} panicked: {}", what, msg))
+                            }
+                        }
+                        true
+                    }
+                }
             }
             MDiagonal => {
                 if !matches!(self.form, MForm::RM(_) | MForm::CM(_)) {
